@@ -654,16 +654,18 @@ def run(ctx):
     base_child = ['write', 'read', 'thread_write', 'thread_read', 'write', 'read']
     base_parent = ['write', 'read']
     grid = []
+    quick = ctx.tier == 'quick'
     for kind in ('sqlite', 'generic'):
+        # quick: the generic Pool gets one ordering per point (the other ordering runs in the thorough tier)
         for point in IDLE_POINTS:
-            for order in ('child_first', 'parent_first'):
+            for order in (('parent_first',) if quick and kind == 'generic' else ('child_first', 'parent_first')):
                 grid.append((kind, point, None, order, base_child, base_parent))
         for point in OPEN_POINTS:
             for variant in VARIANTS:
-                for order in ('child_first', 'parent_first'):
+                for order in (('child_first',) if quick and kind == 'generic' else ('child_first', 'parent_first')):
                     grid.append((kind, point, variant, order, base_child, base_parent))
     # randomised programs
-    nrand = 24 if ctx.tier == 'quick' else 400
+    nrand = 8 if quick else 400
     steps = ['write', 'read', 'thread_write', 'thread_read', 'write', 'read', 'disconnect']
     for i in range(nrand):
         kind = rng.choice(('sqlite', 'generic'))
